@@ -224,6 +224,36 @@ Definition sel_coord (ds : dataset) (nm : string) (i j : nat) : option (V * V * 
 Definition rows_equal_first (E : arr2) : Prop := forall r, In r E -> r = first_row E.
 Definition cols_equal_first (N : arr2) : Prop := forall r x, In r N -> In x r -> hd_error r = Some x.
 
+(** where the source cell (i, j) of a make_xarray_grid input lies: exactly
+    (n[i], e[j]) for 1-D input; for 2-D input (N[i][j], E[i][j]), which the
+    grid's (y, x) matches within the allclose test that admitted the input,
+    and exactly when the input is an exact meshgrid *)
+Definition source_cell (ce cn : nd) (i j : nat) (y x : V) : Prop :=
+  match ce, cn with
+  | A1 e, A1 n => nth_error n i = Some y /\ nth_error e j = Some x
+  | A2 E, A2 N =>
+    exists y0 x0, cell N i j = Some y0 /\ cell E i j = Some x0 /\
+      close y y0 = true /\ close x x0 = true /\
+      (rows_equal_first E -> x = x0) /\ (cols_equal_first N -> y = y0)
+  | _, _ => False
+  end.
+
+(** a grid whose variables and non-index coordinates are all laid out along
+    the dimensions (d0, d1) of its first variable, with index coordinates
+    [north] for d0 and [east] for d1 *)
+Definition coord_cell (c : coord) (i j : nat) : option V :=
+  match c with Aux v => cell (v_rows v) i j | Idx _ => None end.
+
+Definition aligned_grid (g : grid) (d0 d1 : string) (north east : list V) : Prop :=
+  (exists nm v0 rest, grid_vars g = (nm, v0) :: rest /\ v_dims v0 = (d0, d1)) /\
+  assoc d0 (grid_coords g) = Some (Idx north) /\
+  assoc d1 (grid_coords g) = Some (Idx east) /\
+  Forall (fun p => v_dims (snd p) = (d0, d1) /\
+                   rect (length north) (length east) (v_rows (snd p)) = true) (grid_vars g) /\
+  Forall (fun p => is_extra d0 d1 p = true ->
+                   exists v, snd p = Aux v /\ v_dims v = (d0, d1) /\
+                             rect (length north) (length east) (v_rows v) = true) (grid_coords g).
+
 (** the conditions under which make_xarray_grid accepts its input *)
 Definition names_valid (count : nat) (nm : names) : bool :=
   match nm with
